@@ -126,17 +126,19 @@ def identLoop (isLetterU isDigitU : Nat → Bool) : Str → Str × Str × Bool
 def scanIdentifier (isLetterU isDigitU : Nat → Bool) (cur : Str) : Str × Str × Bool :=
   identLoop isLetterU isDigitU cur
 
+/-- a test `p(s.ch)` on the current character; false at end of input (`s.ch = -1`) -/
+def headIs (p : Nat → Bool) (cur : Str) : Bool :=
+  match cur with
+  | c :: _ => p c
+  | [] => false
+
 /-- `scanFieldIdentifier`: (literal, position after, error reported) -/
 def scanFieldIdentifier (isLetterU isDigitU : Nat → Bool) (cur : Str) : Str × Str × Bool :=
   match cur with
   | 35 :: cs =>
     -- s.next(); if isDigit(s.ch) { return "#" }
     let e := nextErr cs
-    let d :=
-      match cs with
-      | c :: _ => isDigit isDigitU c
-      | [] => false
-    if d then ([35], cs, e)
+    if headIs (isDigit isDigitU) cs then ([35], cs, e)
     else
       let (l, r, e2) := identLoop isLetterU isDigitU cs
       (35 :: l, r, e || e2)
@@ -153,13 +155,11 @@ deriving Repr, DecidableEq
 
 def notIdent (err : Bool) : Tok := ⟨false, [], err⟩
 
-/-- `Init` followed by the first `Scan`, restricted to what is needed to decide whether the
-first token is identifier-shaped and what its literal is.  For tokens that are not
-identifier-shaped the literal and error flag are not tracked further. -/
-def scanFirst (isLetterU isDigitU : Nat → Bool) (s : Str) : Tok :=
-  let (cur0, e0) := init s
-  let (cur, e1) := skipWs cur0
-  let err := e0 || e1
+/-- The token-value switch of `Scan` at position `cur` (after `skipWhitespace`), restricted to
+what is needed to decide whether the token is identifier-shaped and what its literal is.
+`err`: errors reported so far.  For tokens that are not identifier-shaped the literal and the
+error flag are not tracked further. -/
+def scanAt (isLetterU isDigitU : Nat → Bool) (cur : Str) (err : Bool) : Tok :=
   match cur with
   | [] => notIdent err                                   -- EOF
   | ch :: cs =>
@@ -168,10 +168,7 @@ def scanFirst (isLetterU isDigitU : Nat → Bool) (s : Str) : Tok :=
       let (lit, r, e) := scanFieldIdentifier isLetterU isDigitU cur
       if byteLenStr lit > 1 then ⟨true, lit, err || e⟩   -- tok = token.Lookup(lit)
       else
-        let quoteOrHash :=
-          match r with
-          | c :: _ => c == 39 || c == 34 || c == 35
-          | [] => false
+        let quoteOrHash := headIs (fun c => c == 39 || c == 34 || c == 35) r
         if ch != 35 || !quoteOrHash then ⟨true, lit, err || e⟩   -- tok = token.IDENT
         else notIdent (err || e)                         -- fallthrough: a #-string
     else if ch == 95 then
@@ -185,13 +182,16 @@ def scanFirst (isLetterU isDigitU : Nat → Bool) (s : Str) : Tok :=
       else
         let (l, r, e) := scanFieldIdentifier isLetterU isDigitU cs
         let lit := 95 :: l
-        let hashNext :=
-          match r with
-          | c :: _ => c == 35
-          | [] => false
+        let hashNext := headIs (· == 35) r
         if lit == [95, 95] && hashNext then notIdent (err || e2 || e)   -- ILLEGAL "__#…"
         else ⟨true, lit, err || e2 || e⟩
     else notIdent err                                    -- any other token
+
+/-- `Init` followed by the first `Scan` -/
+def scanFirst (isLetterU isDigitU : Nat → Bool) (s : Str) : Tok :=
+  let (cur0, e0) := init s
+  let (cur, e1) := skipWs cur0
+  scanAt isLetterU isDigitU cur (e0 || e1)
 
 /-- the first token is identifier-shaped and its literal is the whole input -/
 def scanIdent (isLetterU isDigitU : Nat → Bool) (s : Str) : Bool :=
